@@ -103,7 +103,10 @@ def run(tier, seed):
         spec = []
         # every kind of displacement in every order: an atom without displacement right after an anisotropic one, after an isotropic one, first
         orders = [["Uiso", "Uani"], ["Uani", None, "Uiso"], [None, "Uani", None], ["Uani", "Uiso", None, "Uani"], ["Uiso", None]]
-        for i, kind in enumerate(["Uiso", "Uani", "Uani", None] if tier == "thorough" else orders[len(todo) % len(orders)]):
+        kinds_ = ["Uiso", "Uani", "Uani", None] if tier == "thorough" else orders[len(todo) % len(orders)]
+        if len(todo) % 23 == 7 and len(x["ops"]) <= 16:
+            kinds_ = [rng.choice(["Uani", "Uiso", None, "Uani"]) for _ in range(rng.choice([17, 18, 33]))]        # more atoms than a small buffer holds
+        for i, kind in enumerate(kinds_):
             pos = [rng.uniform(0.03, 0.97) for _ in range(3)]
             adp = rng.uniform(0.005, 0.05) if kind == "Uiso" else (S.random_uani(rng, met, c) if kind == "Uani" else 0.0)
             spec.append(("A%d" % i, rng.choice(S.ELEMENTS), pos, kind, adp, rng.uniform(0.2, 1.0), t["nsymop"]))
